@@ -87,13 +87,23 @@ theorem byteAt_append_left (a r : Bytes) (i : Nat) (h : i < a.length) : byteAt (
 theorem slice_append_left (a r : Bytes) (i n : Nat) (h : i + n ≤ a.length) : ((a ++ r).drop i).take n = (a.drop i).take n := by
   rw [List.drop_append_of_le_length (by omega), List.take_append_of_le_length (by simp only [List.length_drop]; omega)]
 
+/-- the source and destination addresses lie at bytes 12..19 of the header -/
+theorem ip4_headerBytes_addrs (o : Ip4) (hs : o.src.length = 4) (hd : o.dst.length = 4) (rest : Bytes) :
+    ((o.headerBytes ++ rest).drop 12).take 8 = o.src ++ o.dst := by
+  have e : o.headerBytes ++ rest =
+      ([UInt8.ofNat (o.ihl + o.version * 16), UInt8.ofNat o.tos] ++ OutCursor.beBytes 2 o.totLen ++ OutCursor.beBytes 2 o.id ++
+        OutCursor.beBytes 2 o.fragOff ++ [UInt8.ofNat o.ttl, UInt8.ofNat o.protocol] ++ OutCursor.beBytes 2 o.check) ++
+        ((o.src ++ o.dst) ++ rest) := by
+    simp [Ip4.headerBytes, List.append_assoc]
+  rw [e, List.drop_left' (by simp), List.take_left' (by simp [hs, hd])]
+
 /-- the fixed header `write_serialization` leaves in the region decodes (as the parsing constructor decodes it) to the
     object `Ip4.final`: every derived field can be read off the bytes -/
 theorem ip4_written_header (cx : Ctx) (o : Ip4) (h : o.Inv) (hf : o.Fits) (region : Bytes) (hr : o.hdr ≤ region.length) :
     ∃ out, o.write cx region = .ok out ∧ out.length = region.length ∧
       byteAt out 0 % 16 = o.hdr / 4 ∧ byteAt out 0 / 16 = o.version ∧
       Cursor.beNat ((out.drop 2).take 2) = region.length % 65536 ∧
-      byteAt out 9 = Ip4.protocolFor cx o := by
+      byteAt out 9 = Ip4.protocolFor cx o ∧ (out.drop 12).take 8 = o.src ++ o.dst := by
   have hfi := final_inv cx o region h hf
   have hbl := ip4_headerBytes_length (Ip4.final cx o region) hfi.src hfi.dst
   have hdec := ofHeader_headerBytes (Ip4.final cx o region) hfi
@@ -102,7 +112,7 @@ theorem ip4_written_header (cx : Ctx) (o : Ip4) (h : o.Inv) (hf : o.Fits) (regio
   have he : out' = _ := Out.ok.inj (hw'.symm.trans hw)
   generalize hrest : (Ip4.optsBytes o.opts ++ (List.replicate (Ip4.padOptionsSize (Ip4.calcOptionsSize o.opts) -
     Ip4.calcOptionsSize o.opts) 0 ++ region.drop o.hdr)) = rest at hw he
-  refine ⟨_, hw, by rw [← he]; exact hl', ?_, ?_, ?_, ?_⟩
+  refine ⟨_, hw, by rw [← he]; exact hl', ?_, ?_, ?_, ?_, ip4_headerBytes_addrs _ hfi.src hfi.dst _⟩
   · have := congrArg Ip4.ihl hdec
     simp only [Ip4.ofHeader, Ip4.setOpts] at this
     rw [byteAt_append_left _ _ 0 (by omega), this]; rfl
@@ -123,7 +133,7 @@ theorem wire_ip4_tot_len (cx : Ctx) (o : Ip4) (h : o.Inv) (hf : o.Fits) (region 
     (hreg : region.length = o.hdr + cx.innerSize) (h16 : o.hdr + cx.innerSize < 65536) :
     ∃ out, o.write cx region = .ok out ∧ out.length = region.length ∧
       Cursor.beNat ((out.drop 2).take 2) = o.hdr + cx.innerSize := by
-  rcases ip4_written_header cx o h hf region (by omega) with ⟨out, hw, hl, _, _, ht, _⟩
+  rcases ip4_written_header cx o h hf region (by omega) with ⟨out, hw, hl, _, _, ht, _, _⟩
   exact ⟨out, hw, hl, by rw [ht, hreg]; exact Nat.mod_eq_of_lt h16⟩
 
 /-- **IPv4 header length.**  IHL (low nibble of byte 0) times 4 is `header_size()` = 20 + the options padded to a
@@ -135,7 +145,7 @@ theorem wire_ip4_ihl (cx : Ctx) (o : Ip4) (h : o.Inv) (hf : o.Fits) (region : By
       Ip4.padOptionsSize (Ip4.calcOptionsSize o.opts) % 4 = 0 ∧
       Ip4.calcOptionsSize o.opts ≤ Ip4.padOptionsSize (Ip4.calcOptionsSize o.opts) ∧
       Ip4.padOptionsSize (Ip4.calcOptionsSize o.opts) < Ip4.calcOptionsSize o.opts + 4 := by
-  rcases ip4_written_header cx o h hf region hr with ⟨out, hw, _, hi, _, _, _⟩
+  rcases ip4_written_header cx o h hf region hr with ⟨out, hw, _, hi, _, _, _, _⟩
   have hm := hdr_mod4 o
   have hp := padOptionsSize_le (Ip4.calcOptionsSize o.opts)
   exact ⟨out, hw, by rw [hi]; omega, rfl, hp.2.2, hp.1, hp.2.1⟩
@@ -151,7 +161,7 @@ theorem wire_ip4_protocol (cx : Ctx) (o : Ip4) (h : o.Inv) (hf : o.Fits) (region
         (Tags.classOfIpProto (byteAt out 9)).isSome = true) ∧
       (∀ i, cx.inners.head? = some i → Tags.ipProtoOfPduType (Tags.pduTypeOf i.cls) = 255 → byteAt out 9 = o.protocol) ∧
       (cx.inners.head? = none → byteAt out 9 = 0) := by
-  rcases ip4_written_header cx o h hf region hr with ⟨out, hw, _, _, _, _, hp⟩
+  rcases ip4_written_header cx o h hf region hr with ⟨out, hw, _, _, _, _, hp, _⟩
   refine ⟨out, hw, ?_, ?_, ?_⟩
   · intro i hi hne
     have hlt := ipProtoOfPduType_lt (Tags.pduTypeOf i.cls)
